@@ -222,7 +222,7 @@ let pcq_start kv =
   let cap = geti kv "cap" 1 in
   let prod = getl kv "prod" and cons = getl kv "cons" in
   let threads =
-    List.mapi (fun p n -> QProd (QPWait, List.init n (fun i -> z_of_int (p * 1000 + i + 1)))) prod
+    List.mapi (fun p n -> QProd (QPWait, List.init n (fun i -> z_of_int (p * 1000000 + i + 1)))) prod
     @ List.map (fun n -> QCons (QCWait, nat_of_int n, [])) cons in
   let capn = nat_of_int cap in
   (pcq_ops capn (List.length threads), pcq_init (pcq_empty_init capn) (pcq_used_init capn) threads, "")
